@@ -1494,7 +1494,10 @@ class _TextReader:
         except Exception:
             rdclass = dns.rdataclass.IN
         # Type
-        rdtype = dns.rdatatype.from_text(token.value)
+        try:
+            rdtype = dns.rdatatype.from_text(token.value)
+        except ValueError:
+            raise dns.exception.SyntaxError(f"rdatatype '{token.value}' is out of range")
         rdclass, rdtype, _, _ = self.message._parse_rr_header(
             section_number, name, rdclass, rdtype
         )
@@ -1545,7 +1548,10 @@ class _TextReader:
         except Exception:
             rdclass = dns.rdataclass.IN
         # Type
-        rdtype = dns.rdatatype.from_text(token.value)
+        try:
+            rdtype = dns.rdatatype.from_text(token.value)
+        except ValueError:
+            raise dns.exception.SyntaxError(f"rdatatype '{token.value}' is out of range")
         rdclass, rdtype, deleting, empty = self.message._parse_rr_header(
             section_number, name, rdclass, rdtype
         )
